@@ -9,10 +9,11 @@ CLAIM = ('Decides statically, on the generic configuration (no SSE2/AES/int128 -
          'the hash driver saves / restores the fenv around everything and resets it before every program; the soft AES round with the fallback lane accessors is still the FIPS-197 round; the decoder rules hold unchanged; '
          'rotates, mulh and smulh have their canonical two-shift / schoolbook / signed-correction forms. Numeric equality of per-lane double arithmetic and of the 32x32 multiplication with the SIMD / int128 results is not claimed.'
          ' PORT-INT is sound both ways: the reference form is accepted as the textbook algorithm, rotr / rotl in any other form are decided by known-bits bit routing for all 64 counts, mulh / smulh in any other form are either refuted by a concrete operand pair (evaluated with fixed-width arithmetic, undefined shifts included) or reported as undecidable (exit 2).'
-         ' Interpreter executors: the body of every integer executor is evaluated symbolically on terms and must equal the term of specification 5.2 (INT-EXEC: 17 executors, every shift, all three masks), and every floating-point executor applies the operation of 5.3 to the right operands, with the converted scratchpad operand and, for FDIV_M, the mantissa / exponent masks (FP-EXEC, uninterpreted vector operations; the rx_* wrappers of the host configuration are the packed-double intrinsics of the same name). (evaluated on the portable configuration).')
+         ' Interpreter executors: the body of every integer executor is evaluated symbolically on terms and must equal the term of specification 5.2 (INT-EXEC: 17 executors, every shift, all three masks), and every floating-point executor applies the operation of 5.3 to the right operands, with the converted scratchpad operand and, for FDIV_M, the mantissa / exponent masks (FP-EXEC, uninterpreted vector operations; the rx_* wrappers of the host configuration are the packed-double intrinsics of the same name). (evaluated on the portable configuration).'
+         ' Byte order: the big-endian branches of load32 / load64 / store32 / store64, of the 128-bit vector load / store wrappers and of the two casts between the integer and the floating-point vector are evaluated byte by byte on a big-endian cross configuration (s390x parse, native-order union layout) and must produce / consume the little-endian image (PORT-ENDIAN); the suite never compiles these branches.')
 LEVEL_NOTE = 'Trusted: clang AST with -U__SSE2__ -U__SSE__ -U__AES__ -U__SIZEOF_INT128__ -U__x86_64__ (host libstdc++ headers + two stub headers); IEEE-754 double arithmetic of the host; glibc fenv.'
 EXPLANATION = ('PORT-TYPECHECK (25 units), DRV-FPENV/DRV-RESET on K1, PORT-ROUND, PORT-LANEOPS, PORT-CVT, PORT-INT, AES-ROUND on K1, decoder rules on K1.'
-         ' INT-EXEC, FP-EXEC on K1.')
+         ' INT-EXEC, FP-EXEC on K1. PORT-ENDIAN on K6 (big-endian cross parse).')
 
 
 def run(ctx, R):
@@ -27,3 +28,4 @@ def run(ctx, R):
     decode.rule_lw(ctx, R, F1)
     interpsem.rule_int_exec(ctx, R, F1)
     interpsem.rule_fp_exec(ctx, R, F1)
+    portable.rule_endian(ctx, R)
